@@ -28,7 +28,7 @@ import tempfile
 from concurrent.futures import ThreadPoolExecutor
 
 V = os.path.dirname(os.path.dirname(os.path.abspath(__file__)))
-OUT = os.path.join(V, "mutation")
+OUT = os.path.join(V, os.environ.get("RXSA_MUT_DIR", "mutation"))
 REPO = os.environ.get("RXSA_REPO", "/repo")
 SKIP_FILES = ("reactivex/typing.py", "reactivex/_version.py")
 
@@ -84,6 +84,9 @@ def candidates(tree):
             for k, kw in enumerate(n.keywords):
                 if kw.arg == "scheduler":
                     yield "KWDROP", i, k, ln, f"drop scheduler= in `{ast.unparse(n.func)[:40]}(...)`"
+            simple = (ast.Name, ast.Attribute, ast.Constant, ast.Subscript)
+            if len(n.args) >= 2 and isinstance(n.args[0], simple) and isinstance(n.args[1], simple) and ast.unparse(n.args[0]) != ast.unparse(n.args[1]):
+                yield "ARGSWAP", i, None, ln, f"swap the first two arguments of `{ast.unparse(n)[:60]}`"
         for fname, body in _bodies(n):
             for k in range(len(body) - 1):
                 a, b = body[k], body[k + 1]
@@ -131,6 +134,8 @@ def apply(src, op, idx, extra):
         n.op = ast.Or() if isinstance(n.op, ast.And) else ast.And()
     elif op == "KWDROP":
         del n.keywords[extra]
+    elif op == "ARGSWAP":
+        n.args[0], n.args[1] = n.args[1], n.args[0]
     elif op == "SWAP":
         fname, k = extra
         body = dict(_bodies(n))[fname] if fname != "handler" else None
